@@ -432,6 +432,8 @@ class FnVerifier(Verifier):
         termination assumed, listed as A-DICTITER).  Keys written to the same dict in the body are allowed."""
         mt = m.t
         kk, vk = m.kk, m.vk
+        if sp.get('enum'):
+            return self.for_map_items_enum(st, s, k, sp, m)
 
         def guard(h):
             return z3.Bool(fresh_name('more_items'))
@@ -450,6 +452,63 @@ class FnVerifier(Verifier):
         sp.setdefault('decreases', None)
         tnames = [n.id for n in ast.walk(s.target) if isinstance(n, ast.Name)]
         return self.run_loop(st, s, k, sp, guard, pre_body, s.body, s.orelse, extra_names=tnames)
+
+    def for_map_items_enum(self, st, s, k, sp, m):
+        """for key, value in <dict>.items() with loop clause enum=True: every entry of the dict exactly once, in an
+        arbitrary but fixed order.  Ghost functions of this loop execution: key_at(i), the key met in iteration i, and
+        key_idx(key), the iteration that meets key; _n = the number of entries, _i = the iterations done (as in list
+        loops).  The key set must not change in the body (Python raises RuntimeError when it does): an obligation at the
+        end of every iteration; assigning to an existing key is fine."""
+        mt, kk, vk = m.t, m.kk, m.vk
+        ks = S if kk == 'str' else I
+        key_at = z3.Function(fresh_name('key_at'), I, ks)
+        key_idx = z3.Function(fresh_name('key_idx'), ks, I)
+        row0 = st._marr(mt, 'has', kk)[2]
+        n = z3.Function('$msize' + ('S' if kk == 'str' else 'R'), row0.sort(), I)(row0)
+        i_, k_ = z3.Int(fresh_name('i')), z3.Const(fresh_name('k'), ks)
+        st.pc.append(n >= 0)
+        st.pc.append(smt.forall([i_], z3.Implies(z3.And(0 <= i_, i_ < n), z3.And(z3.Select(row0, key_at(i_)), key_idx(key_at(i_)) == i_)),
+                                patterns=[key_at(i_)]))
+        st.pc.append(smt.forall([k_], z3.Implies(z3.Select(row0, k_), z3.And(0 <= key_idx(k_), key_idx(k_) < n, key_at(key_idx(k_)) == k_)),
+                                patterns=[key_idx(k_)]))
+        outs = self.split_pend(st)
+        ivar = '$i%d' % k
+        st.env[ivar] = VInt(0)
+        st.env['_i'] = st.env[ivar]
+        st.env['_n'] = VInt(n)
+        st.env['$enum'] = (key_at, key_idx, kk)
+        sp = dict(sp)
+        sp['invariant'] = ['0 <= _i', '_i <= _n'] + list(sp.get('invariant', []))
+        if not sp.get('decreases'):
+            sp['decreases'] = '_n - _i'
+
+        def guard(h):
+            h.env['_i'] = h.env[ivar]
+            return h.env[ivar].t < n
+
+        def pre_body(b):
+            i = b.env[ivar].t
+            key = key_at(i)
+            b.pc.append(z3.Select(row0, key))
+            # the key set is the one the loop started with (checked at the end of every iteration)
+            b.pc.append(b._marr(mt, 'has', kk)[2] == row0)
+            keyv = VStr(key) if kk == 'str' else VAny(key)
+            val = self.map_value(b, VMap(mt, kk, vk), key)
+            if isinstance(val, (VRef, VMap, VList)):
+                b.pc.append(val.t != 0)
+            self.assign(b, s.target, VTuple([keyv, val]))
+            b.env[ivar] = VInt(i + 1)
+            b.env['_i'] = b.env[ivar]
+
+        def post_havoc(h):
+            h.env['_i'] = h.env[ivar]
+            # (assumed at the loop head, proved at the end of each iteration through the generated invariant below)
+        sp['invariant'] = sp['invariant'] + ['keys_unchanged()']
+        self._enum_rows = getattr(self, '_enum_rows', {})
+        self._enum_rows[k] = (mt, kk, row0)
+        st.env['$enum_row'] = (mt, kk, row0)
+        tnames = [n_.id for n_ in ast.walk(s.target) if isinstance(n_, ast.Name)]
+        return outs + self.run_loop(st, s, k, sp, guard, pre_body, s.body, s.orelse, extra_names=[ivar] + tnames, post_havoc=post_havoc)
 
     def unroll_for(self, st, s, items):
         outs = []
